@@ -219,7 +219,7 @@ func c38Run(r *simkit.Run) {
 	r.Sched(simkit.SchedOpts{MaxSteps: 3000000, Stick: r.DrawStick(), MaxSim: 24 * time.Hour,
 		Quanta: []time.Duration{time.Millisecond, time.Second, 10 * time.Minute, 35 * time.Minute}})
 
-	if r.Live() > 0 {
+	if r.Unfinished() {
 		r.Fail("liveness", "maker", "clients did not finish")
 	}
 
